@@ -87,3 +87,33 @@ Theorem C16_nothing_after_the_error :
                  (last_err (decode_frames ig ak po fs1 st) <> None -> tail = []).
 Proof. exact frames_prefix. Qed.
 Print Assumptions C16_nothing_after_the_error.
+
+From PJ.Model Require Import Spec.
+From PJ.Proofs Require Import DecoderSound DecoderRejects.
+
+(* Against the referee, over whole streams: whenever Spec.run stops at some row with a catalogued
+   class -- at ANY position, in ANY table state, for ANY valid prefix -- the decoder (options,
+   routing, construction, rows) raises, and what it had yielded is exactly the events of the rows
+   before the offending one: nothing invented, nothing from the offending row or after it. *)
+Theorem C16_decoder_rejects :
+  forall (rows : list row) (i : nat) (c : vclass) (evs : list event) (md : list (str * str)) (delimited : bool),
+    rows <> [] -> run rows = Invalid i c evs -> catalogued c = true ->
+    exists e, decode_all rows md delimited = (evs, Some e).
+Proof. exact decoder_rejects. Qed.
+Print Assumptions C16_decoder_rejects.
+
+(* The step: in related states, a row the referee rejects with a catalogued class is rejected. *)
+Theorem C16_step_rejects :
+  forall (r : row) (s : sstate) (c : vclass) (st : dstate) (ak : adapter_kind) (po : poptions),
+    R s st -> Ropts s ak po -> step r s = SBad c -> catalogued c = true ->
+    exists e, decode_row Generic ak po r st = Err e.
+Proof. exact step_reject. Qed.
+Print Assumptions C16_step_rejects.
+
+(* non-vacuity: an entry id one past the table, after a valid prefix that yields an event *)
+Example a_rejected_stream :
+  run [ROptions {| o_name := []; o_phys := 1; o_gen := false; o_star := false; o_maxn := 8; o_maxp := 0; o_maxd := 0; o_logical := 1; o_version := 1 |};
+       RName 0 [97]; RTriple (Some (WIri 0 0)) (Some (WIri 0 1)) (Some (WBnode [98]));
+       RName 9 [99]]
+  = Invalid 3 IdOutOfRange [ETriple (TIri [97]) (TIri [97]) (TBnode [98])].
+Proof. vm_compute. reflexivity. Qed.
